@@ -737,3 +737,38 @@ Proof.
   apply Z.bits_inj'. intros j Hj. rewrite !byte_of_bits by lia.
   destruct (Z.ltb_spec j 8); [|reflexivity]. apply Hb; lia.
 Qed.
+
+(* ================= which indices panic: exactly those whose digit index is past the array ================= *)
+
+Lemma bit_panic_iff w n a i : 0 < w -> wf w n a -> 0 <= i ->
+  (bit w a i = Panic <-> Z.of_nat n <= i / w).
+Proof.
+  intros Hw Ha Hi. rewrite (bit_ok w n) by auto. pose proof (idx_lt w (Z.of_nat n) i Hw Hi) as HL.
+  unfold bits. destruct (Z.ltb_spec i (w * Z.of_nat n)) as [H|H].
+  - split; [discriminate | lia].
+  - split; [lia | reflexivity].
+Qed.
+
+Lemma set_bit_panic_iff w n a i v : 0 < w -> wf w n a -> 0 <= i ->
+  (set_bit w a i v = Panic <-> Z.of_nat n <= i / w).
+Proof.
+  intros Hw Ha Hi. destruct (set_bit_ok w n a i v Hw Ha Hi) as [H1 H2].
+  pose proof (idx_lt w (Z.of_nat n) i Hw Hi) as HL. unfold bits in *.
+  destruct (Z_lt_le_dec i (w * Z.of_nat n)) as [H|H].
+  - destruct (H1 H) as (r & -> & _). split; [discriminate | lia].
+  - rewrite (H2 H). split; [lia | reflexivity].
+Qed.
+
+Lemma power_of_two_panic_iff w n k : 0 < w -> 0 <= k ->
+  (power_of_two w n k = Panic <-> Z.of_nat n <= k / w).
+Proof.
+  intros Hw Hk. destruct (power_of_two_ok w n k Hw Hk) as [H1 H2].
+  pose proof (idx_lt w (Z.of_nat n) k Hw Hk) as HL. unfold bits in *.
+  destruct (Z_lt_le_dec k (w * Z.of_nat n)) as [H|H].
+  - destruct (H1 H) as (r & -> & _). split; [discriminate | lia].
+  - rewrite (H2 H). split; [lia | reflexivity].
+Qed.
+
+Lemma count_ones_whole_popcount w n a : 0 < w -> wf w n a ->
+  popcount (nbits w n) (uval w a) = u_count_ones (uval w a).
+Proof. intros Hw Ha. rewrite <- (count_ones_ok w n), (count_ones_whole w n) by auto. reflexivity. Qed.
